@@ -373,7 +373,7 @@ pub fn run(ctx: &mut Ctx) {
         eprintln!("{e}");
         std::process::exit(2);
     }
-    let n = ctx.tier.pick(1_200u32, 40_000u32);
+    let n = ctx.tier.pick(5_000u32, 600_000u32);
     match search(ctx, 6, n, case(), check) {
         Search::Pass => {}
         Search::Fail(c, e) => ctx.violation("ceremonies", json!(c), &e),
